@@ -242,8 +242,26 @@ func (e *pathEnum) dfs(b *ssa.BasicBlock) {
 	var allowed []int
 	if iff, ok := b.Instrs[len(b.Instrs)-1].(*ssa.If); ok {
 		c, neg := normCond(iff.Cond)
+		// a condition merged by a phi (a && b, a || b, a flag set on some branches): on this path it is the incoming value
+		var rc ssa.Value
+		rneg := false
+		if _, isPhi := c.(*ssa.Phi); isPhi {
+			tmp := &Path{Fn: e.fn, Blocks: e.blocks, Succ: e.succ}
+			if r := tmp.Resolve(c, step); r != nil && r != c {
+				r, n2 := normCond(r)
+				if _, still := r.(*ssa.Phi); !still {
+					rc, rneg = r, n2
+				}
+			}
+		}
 		if cb, isC := constBool(c); isC {
 			if cb != neg {
+				allowed = []int{0}
+			} else {
+				allowed = []int{1}
+			}
+		} else if cb, isC := constBool(rc); rc != nil && isC {
+			if cb != (neg != rneg) {
 				allowed = []int{0}
 			} else {
 				allowed = []int{1}
@@ -254,6 +272,10 @@ func (e *pathEnum) dfs(b *ssa.BasicBlock) {
 			for i := len(e.facts) - 1; i >= 0; i-- {
 				if e.facts[i].Cond == c {
 					known, val = true, e.facts[i].True
+					break
+				}
+				if rc != nil && e.facts[i].Cond == rc {
+					known, val = true, e.facts[i].True != rneg
 					break
 				}
 			}
@@ -285,6 +307,9 @@ func (e *pathEnum) dfs(b *ssa.BasicBlock) {
 			e.succ = append(e.succ, si)
 			nf := len(e.facts)
 			e.facts = append(e.facts[:nf:nf], Fact{Cond: c, True: (si == 0) != neg, Step: step})
+			if rc != nil {
+				e.facts = append(e.facts, Fact{Cond: rc, True: ((si == 0) != neg) != rneg, Step: step})
+			}
 			e.dfs(b.Succs[si])
 			e.facts = e.facts[:nf]
 			e.succ = e.succ[:step]
